@@ -161,6 +161,17 @@ func genEnum(r *rand.Rand, i int, _ bool) espec {
 	if r.IntN(3) == 0 {
 		e.values = append(e.values, evalue{p + "NEG", -3}, evalue{p + "BIG", 2147483647})
 	}
+	if r.IntN(3) == 0 {
+		// values declared out of numeric order: dense 0..n-1 with the interior permuted (a value added
+		// later and slotted in), or fully shuffled after the zero value, sometimes with a gap
+		e.values = []evalue{{p + "UNSPECIFIED", 0}, {p + "ALPHA", 2}, {p + "BETA", 1}, {p + "GAMMA_RAY", 3}}
+		switch r.IntN(3) {
+		case 1:
+			e.values = []evalue{{p + "UNSPECIFIED", 0}, {p + "ALPHA", 3}, {p + "BETA", 1}, {p + "GAMMA_RAY", 2}, {p + "DELTA", 4}}
+		case 2:
+			e.values = []evalue{{p + "UNSPECIFIED", 0}, {p + "ALPHA", 9}, {p + "BETA", 4}, {p + "GAMMA_RAY", 1}}
+		}
+	}
 	if r.IntN(4) == 0 {
 		e.noDefault = true
 	}
@@ -330,6 +341,8 @@ func showcaseAllKinds(pkg string) *fileSpec {
 		{name: "E0", values: []evalue{{"E0_UNSPECIFIED", 0}, {"E0_ALPHA", 1}, {"E0_BETA", 2}, {"E0_NEG", -3}, {"E0_BIG", 2147483647}}},
 		{name: "Bare", values: []evalue{{"UNSPECIFIED", 0}, {"RED", 1}, {"GREEN", 2}}},
 		{name: "Nd", values: []evalue{{"ND_UNSPECIFIED", 0}, {"ND_ONE", 1}, {"ND_TWO", 2}}, noDefault: true},
+		// declared out of numeric order (first 0, last n-1, interior permuted)
+		{name: "Perm", values: []evalue{{"PERM_UNSPECIFIED", 0}, {"PERM_ACTIVE", 2}, {"PERM_PENDING", 1}, {"PERM_CLOSED", 3}}},
 	}
 	all := mspec{name: "All"}
 	num := int32(0)
@@ -347,7 +360,7 @@ func showcaseAllKinds(pkg string) *fileSpec {
 		add(fspec{name: "r_" + kindNames[k], kind: k, card: cRepeated, oneof: -1})
 		add(fspec{name: "m_" + kindNames[k], kind: k, card: cMap, oneof: -1})
 	}
-	for _, e := range []string{"E0", "Bare", "Nd"} {
+	for _, e := range []string{"E0", "Bare", "Nd", "Perm"} {
 		add(fspec{name: "s_enum_" + strings.ToLower(e), kind: kEnum, ref: e, oneof: -1})
 		add(fspec{name: "o_enum_" + strings.ToLower(e), kind: kEnum, ref: e, card: cOptional, oneof: -1})
 		add(fspec{name: "r_enum_" + strings.ToLower(e), kind: kEnum, ref: e, card: cRepeated, oneof: -1})
@@ -388,7 +401,32 @@ func showcaseAllKinds(pkg string) *fileSpec {
 	flat2 := mspec{name: "Flat2", fields: []fspec{
 		{name: "flat2_a", num: 1, kind: kBool, oneof: -1},
 		{name: "flat2_leaf", num: 2, kind: kObject, ref: "Leaf", oneof: -1},
+		{name: "deepest", num: 3, kind: kObject, ref: "Flat3", flatten: true, oneof: -1},
 	}}
+	// flattened three deep from All (All.flat -> Flat.deeper -> Flat2.deepest), several properties of
+	// different kinds in the innermost object
+	flat3 := mspec{name: "Flat3", fields: []fspec{
+		{name: "flat3_s", num: 1, kind: kString, oneof: -1},
+		{name: "flat3_n", num: 2, kind: kInt64, oneof: -1},
+		{name: "flat3_b", num: 3, kind: kBool, card: cOptional, oneof: -1},
+		{name: "flat3_t", num: 4, kind: kString, oneof: -1},
+	}}
+	// a chain of flattened objects seven deep, two or three properties on every level
+	chain := []mspec{{name: "Chain", fields: []fspec{
+		{name: "chain_id", num: 1, kind: kString, oneof: -1},
+		{name: "c1", num: 2, kind: kObject, ref: "Chain1", flatten: true, oneof: -1},
+	}}}
+	for lvl := 1; lvl <= 7; lvl++ {
+		m := mspec{name: fmt.Sprintf("Chain%d", lvl), fields: []fspec{
+			{name: fmt.Sprintf("c%d_first", lvl), num: 1, kind: kString, oneof: -1},
+			{name: fmt.Sprintf("c%d_second", lvl), num: 2, kind: kString, oneof: -1},
+			{name: fmt.Sprintf("c%d_third", lvl), num: 3, kind: kInt32, oneof: -1},
+		}}
+		if lvl < 7 {
+			m.fields = append(m.fields, fspec{name: fmt.Sprintf("c%d_next", lvl), num: 4, kind: kObject, ref: fmt.Sprintf("Chain%d", lvl+1), flatten: true, oneof: -1})
+		}
+		chain = append(chain, m)
+	}
 	wrap := mspec{name: "Wrap", wrapper: 2, oneofs: []ospec{{name: "type"}}, fields: []fspec{
 		{name: "w_string", num: 1, kind: kString, oneof: 0},
 		{name: "w_int32", num: 2, kind: kInt32, oneof: 0},
@@ -403,7 +441,8 @@ func showcaseAllKinds(pkg string) *fileSpec {
 		{name: "c_leaf", num: 1, kind: kObject, ref: "Leaf", oneof: 0},
 		{name: "c_flat2", num: 2, kind: kObject, ref: "Flat2", oneof: 0},
 	}}
-	fs.msgs = []mspec{all, leaf, flat, flat2, wrap, conv}
+	fs.msgs = []mspec{all, leaf, flat, flat2, flat3, wrap, conv}
+	fs.msgs = append(fs.msgs, chain...)
 	return fs
 }
 
